@@ -131,6 +131,7 @@ func (x *Exec) contractEnv(st *State, results []SV, old HeapView) *CEnv {
 	for k, v := range x.params {
 		env.vars[k] = v
 	}
+	env.entryVars = x.params
 	if results != nil {
 		sig := x.fn.Signature
 		for i := 0; i < sig.Results().Len(); i++ {
@@ -473,7 +474,7 @@ func (x *Exec) callMods(c *ssa.CallCommon, li *loopInfo, seen map[*ssa.Function]
 		li.modAll = true
 		return
 	}
-	if fc := x.prog.contractFor(callee); fc != nil && !fc.Inline {
+	if fc := x.prog.contractFor(callee); fc != nil && !fc.Inline && !x.inlineHere(fc) {
 		keys, allocs, all := x.prog.modifiesKeys(x, callee, fc)
 		for _, k := range keys {
 			li.modHeap[k] = true
